@@ -234,14 +234,16 @@ def _work(arg):
 
 
 # ------------------------------------------------------------------ S: include sequences and the memo
-SEQ_DIRS = ['#include "missing.h"', "#include <missing.h>", '#include "h.h"', '#include "sub/k.h"', "#include <missing2.h>"]
+SEQ_DIRS = ['#include "missing.h"', "#include <missing.h>", '#include "h.h"', '#include "sub/k.h"', "#include <missing2.h>",
+            # present beside the includer only: the angle form must miss (and warn), the quote form must be found (and stay silent)
+            "#include <local.h>", '#include "local.h"']
 
 
 def _seq_run(seq):
     from codebasin import finder, platform
 
     root = os.path.join(env.fresh_dir("c18s"), "root")
-    files = {"src/main.c": "\n".join(list(seq) + ["int t;"]) + "\n", "src/sub/k.h": 'int k;\n#include "missing.h"\n', "inc1/h.h": "int h;\n"}
+    files = {"src/main.c": "\n".join(list(seq) + ["int t;"]) + "\n", "src/sub/k.h": 'int k;\n#include "missing.h"\n', "inc1/h.h": "int h;\n", "src/local.h": "int local;\n"}
     codebase.write_tree(root, files)
     inc = os.path.join(root, "inc1")
     r = cpp.preprocess(os.path.join(root, "src/main.c"), [inc], [])
@@ -302,7 +304,7 @@ def run(tier):
         "states": sinfo["states"], "transitions": sinfo["transitions"], "traces_validated_against_impl": sinfo["transitions"] + n,
         "evaluations": n + sinfo["transitions"], "distinct_nontrivial": sum(r[1] for r in res),
         "rule": "every subset of <=%d of 13 fault sites%s, each analysed in-process (records of the 'codebasin' logger) and through the codebasin CLI (closing totals vs cbi.log); "
-                "S: every sequence of <=%d include directives over 5 forms on one Platform, state = its include memo" % (kmax, " (3-subsets: a seed-chosen half)" if tier == "quick" else "", 3 if tier == "quick" else 4),
+                "S: every sequence of <=%d include directives over 7 forms on one Platform, state = its include memo" % (kmax, " (3-subsets: a seed-chosen half)" if tier == "quick" else "", 3 if tier == "quick" else 4),
         "fault_sites": FAULTS, "cases": n, "failing_cases": sum(r[2] for r in res), "S": sinfo,
         "samples": [{"faults": cases[20]}, {"faults": cases[-1]}, {"sequence": list(SEQ_DIRS[:3])}],
         "exhaustive": True,
